@@ -71,8 +71,9 @@ func checkC12(c *Ctx) {
 	c.Rule("C12.2", "only playable, each once: the append to the play list is dominated by the playability test and is not in a loop of the callback; the test rejects FF-leading messages and accepts channel messages; the send loop calls the play step once per element; the play step calls Send exactly once", 3)
 	c.Rule("C12.3", "port mapping: port of the track if mapped, else port -1 if mapped, else the event is skipped", 3)
 	c.Rule("C12.4", "never early: Send is preceded by Sleep(1us*absTime - last) in the same call and the step returns 1us*absTime", 1)
-	c.Rule("C12.5", "file order in: the track iterator invokes the callback inside nested range loops over tracks then events", 1)
+	c.Rule("C12.5", "file order in: simulated on two tracks of two events, the track iterator hands the callback every event once, tracks then events in file order", 1)
 
+	c.Rule("C12.7", "selection: with tracks {0}, {1}, {0,1} selected the iterator hands over exactly the events of those tracks, once each, in file order; Play(out) plays every track on the given port (map key -1)", 4)
 	c.Rule("C12.6", "the schedule is the tempo map: the times the play list is built from follow the segment rule of the tick-to-time conversion, also with repeated tempo ticks (= C11.3)", 4)
 	c.include(checkC11, map[string]string{"C11.3": "C12.6"})
 
@@ -109,28 +110,49 @@ func checkC12(c *Ctx) {
 			c.Check(q == "sort.Stable", "C12.1", key, p.Pos(sc.Pos()), "Less compares only "+field+"; input is a concatenation of per-track runs; sort.Stable keeps file order among equal times", "Less compares only "+field+" and the input is a concatenation of per-track runs, but "+q+" is not stable: events of one track sharing a tick can leave out of file order")
 		}
 	}
-	// ---- C12.2 / C12.3: the collection callback, interpreted on concrete port maps
-	var cb *ssa.Function
-	for _, call := range calls(multi) {
-		if call.Common().StaticCallee() != do || len(call.Common().Args) < 2 {
-			continue
-		}
-		if mc, ok := call.Common().Args[1].(*ssa.MakeClosure); ok {
-			cb, _ = mc.Fn.(*ssa.Function)
-		}
-	}
-	if cb == nil {
-		for _, af := range multi.AnonFuncs {
-			if af.Signature.Params().Len() == 1 && namedTypeName(af.Signature.Params().At(0).Type()) == "TrackEvent" {
-				cb = af
+	// ---- C12.2 / C12.3 / C12.4: MultiPlay itself, interpreted on concrete port maps and event lists
+	multiPlaySimulation(c, multi, do)
+	// ---- C12.7 track selection and the single-port wrapper
+	{
+		smfT2 := p.namedType("smf", "SMF")
+		timeAt := p.MethodOf(types.NewPointer(smfT2), "TimeAt")
+		if timeAt != nil {
+			for _, sel := range [][]int64{{0}, {1}, {0, 1}} {
+				iteratorSimulationSel(c, "C12.7", do, timeAt, sel)
 			}
+		} else {
+			c.Unk("C12.7", "SMF.TimeAt", "-", "not found")
 		}
-	}
-	if cb == nil {
-		c.Unk("C12.2", "collection callback of MultiPlay", "-", "not found")
-	} else {
-		c.Fn(FuncName(cb))
-		collectionSimulation(c, cb)
+		// Play(out) = MultiPlay({-1: out}): the map handed on is a fresh map with the single key -1 holding the port
+		if play := p.MethodOf(types.NewPointer(trT), "Play"); play == nil {
+			c.Unk("C12.7", "TracksReader.Play", "-", "not found")
+		} else {
+			c.Fn(FuncName(play))
+			ok, why := false, "Play does not hand its port to MultiPlay"
+			for _, call := range calls(play) {
+				if call.Common().StaticCallee() != multi || len(call.Common().Args) < 2 {
+					continue
+				}
+				mm, isMk := call.Common().Args[1].(*ssa.MakeMap)
+				if !isMk {
+					why = "the port map handed to MultiPlay is not built in Play"
+					continue
+				}
+				n, good := 0, true
+				for _, u := range liveRefs(mm) {
+					if mu, isU := u.(*ssa.MapUpdate); isU {
+						n++
+						k, okk := constInt(mu.Key)
+						if !okk || k != -1 || strip(mu.Value) != ssa.Value(play.Params[1]) {
+							good = false
+						}
+					}
+				}
+				ok = good && n == 1
+				why = "Play maps its port to a key other than -1 (the default for every track): tracks without that number are not played"
+			}
+			c.Check(ok, "C12.7", "Play(out) = MultiPlay({-1: out})", p.Pos(play.Pos()), "one entry, key -1, the port given", why)
+		}
 	}
 	// playability table by abstract interpretation
 	if ip := func() *ssa.Function {
@@ -168,191 +190,63 @@ func checkC12(c *Ctx) {
 		}
 		c.Check(bad == "", "C12.2", "playability table", p.Pos(ip.Pos()), "256 first bytes x 4 length classes: every FF-leading message is rejected, every channel message accepted", bad)
 	}
-	// send loop and play step
-	play := p.MethodOf(types.NewPointer(trT), "play")
-	var step *ssa.Function
-	for _, call := range calls(multi) {
-		f := call.Common().StaticCallee()
-		if f == nil || !InModule(f) || f == do {
-			continue
-		}
-		for _, g := range p.Reachable(f) {
-			for _, cc := range calls(g) {
-				if cc.Common().IsInvoke() && cc.Common().Method.Name() == "Send" {
-					step = f
-				}
-			}
-		}
-	}
-	_ = play
-	if step == nil {
-		c.Bad("C12.2", "play step", p.Pos(multi.Pos()), "MultiPlay never reaches a Send on an out port")
-	} else {
-		c.Fn(FuncName(step))
-		// called exactly once per iteration of a range loop over the play list
-		var stepCall ssa.Instruction
-		n := 0
-		for _, call := range calls(multi) {
-			if call.Common().StaticCallee() == step {
-				stepCall = call
-				n++
-			}
-		}
-		inLoop := false
-		for _, l := range naturalLoops(multi) {
-			if stepCall != nil && l.Body[stepCall.Block()] {
-				inLoop = true
-				if why := classifyLoop(multi, l, nil); why == "" {
-					inLoop = false
-				}
-			}
-		}
-		c.Check(n == 1 && inLoop, "C12.2", "send loop visits each queued event once", p.Pos(multi.Pos()), "one call of the play step inside a counted range loop over the play list", fmt.Sprintf("play step called %d times / not inside a counted loop", n))
-		// E-abs of the step
-		ex := NewExec(p)
-		st := ex.NewState()
-		last := mkSym(ex.syms.Get("last", 64, true))
-		st.refineSym(last.T.Syms[0], 0, 1<<60)
-		abs := mkSym(ex.syms.Get("absTime", 64, true))
-		st.refineSym(abs.T.Syms[0], 0, 1<<50)
-		var args []Val
-		okArgs := true
-		for _, prm := range step.Params {
-			switch {
-			case namedTypeName(prm.Type()) == "TracksReader":
-				args = append(args, ex.newTopObject(st, trT, "t"))
-			case prm.Type().String() == "time.Duration":
-				args = append(args, last)
-			default:
-				if sv, ok := ex.zeroOf(prm.Type()).(*StructV); ok {
-					if i := fieldIndex(sv.T, "absTime"); i >= 0 {
-						sv.Fields[i] = abs
-					}
-					if i := fieldIndex(sv.T, "out"); i >= 0 {
-						sv.Fields[i] = &IfaceV{Unk: true, NonNil: true}
-					}
-					if i := fieldIndex(sv.T, "data"); i >= 0 {
-						sv.Fields[i] = ex.unknownSlice(st, types.Typ[types.Uint8], "data", 1)
-					}
-					args = append(args, sv)
-				} else {
-					okArgs = false
-				}
-			}
-		}
-		ok := okArgs
-		why := "play step has an unexpected signature"
-		nsend := 0
-		if okArgs {
-			for _, o := range ex.Call(st, step, args, nil) {
-				if o.Panic {
-					ok = false
-					why = o.Msg
-					continue
-				}
-				sleepIdx, sendIdx, sends := -1, -1, 0
-				var sleepArg *IntV
-				for i, e := range o.St.Events {
-					if e.Kind == "call:time.Sleep" {
-						sleepIdx = i
-						if len(e.Args) == 1 {
-							sleepArg, _ = e.Args[0].(*IntV)
-						}
-					}
-					if e.Kind == "call:invoke Send" {
-						sendIdx = i
-						sends++
-					}
-				}
-				nsend += sends
-				sched := o.St.Arith(token.MUL, abs, mkConst(1000, 64, true), "")
-				want := o.St.Arith(token.SUB, sched, last, "")
-				switch {
-				case sends != 1:
-					ok = false
-					why = fmt.Sprintf("the play step sends %d times", sends)
-				case sleepIdx < 0 || sleepIdx > sendIdx:
-					ok = false
-					why = "Send is not preceded by a Sleep in the same call: a message can leave before its scheduled time"
-				case sleepArg == nil || !o.St.sameInt(sleepArg, want):
-					ok = false
-					why = fmt.Sprintf("Sleep(%s) instead of Sleep(1us*absTime - last) = %s", valString(sleepArg), want)
-				}
-				if r, _ := o.Ret[0].(*IntV); r == nil || !o.St.sameInt(r, sched) {
-					ok = false
-					why = "the step does not return the scheduled time (1us*absTime) as the new 'last'"
-				}
-			}
-		}
-		c.Check(ok && nsend > 0, "C12.4", "sleep before send, schedule in microseconds", p.Pos(step.Pos()), "Sleep(1000*absTime - last) precedes the single Send; returns 1000*absTime", why)
-		c.Check(ok && nsend > 0, "C12.2", "play step sends exactly once", p.Pos(step.Pos()), "one Send per call on every path", why)
-	}
-	// ---- C12.5 iteration order
+	// ---- C12.5 iteration order: decided by the iterator simulation (two tracks of two events, no selection): the
+	// callback sees every event once, tracks then events in file order, however Do is split into helpers
 	{
-		var fnParam *ssa.Parameter
-		for _, prm := range do.Params {
-			if _, ok := prm.Type().Underlying().(*types.Signature); ok {
-				fnParam = prm
-			}
+		smfT2 := p.namedType("smf", "SMF")
+		if timeAt := p.MethodOf(types.NewPointer(smfT2), "TimeAt"); timeAt != nil {
+			iteratorSimulationSel(c, "C12.5", do, timeAt, nil)
+		} else {
+			c.Unk("C12.5", "SMF.TimeAt", "-", "not found")
 		}
-		ok := fnParam != nil
-		why := "Do has no callback parameter"
-		if ok {
-			n := 0
-			for _, call := range calls(do) {
-				if call.Common().Value != fnParam {
-					continue
-				}
-				n++
-				depth := 0
-				for _, l := range naturalLoops(do) {
-					if l.Body[call.Block()] {
-						if w := classifyLoop(do, l, nil); w != "" {
-							depth++
-						}
-					}
-				}
-				if depth < 2 {
-					ok = false
-					why = "the callback is not invoked inside two nested counted range loops (tracks, then events)"
-				}
-			}
-			if n == 0 {
-				ok = false
-				why = "callback never invoked"
-			}
-			if len(sortCalls(do)) > 0 {
-				ok = false
-				why = "the iterator reorders events"
-			}
+		if len(sortCalls(do)) > 0 {
+			c.Check(false, "C12.5", "iterator does not reorder events", p.Pos(do.Pos()), "", "the iterator sorts events")
 		}
-		c.Check(ok, "C12.5", "iterator visits tracks then events in file order", p.Pos(do.Pos()), "callback invoked in nested range loops, no sorting", why)
 	}
 	_ = playerT
 }
 
-// collectionSimulation (C12.2 / C12.3): the callback that MultiPlay hands to the track iterator is interpreted on one
-// event of track 2 with concrete port maps. A channel message is queued exactly once, with the port of its track if
-// the map has one, else with the port mapped to -1, else not at all; a meta event is never queued. The queued record
-// carries the event's bytes and its time.
-func collectionSimulation(c *Ctx, cb *ssa.Function) {
+// multiPlaySimulation (C12.2 / C12.3 / C12.4): MultiPlay is interpreted end to end with the track iterator replaced by a
+// feeder (the callback it is given is called with a prepared list of events whose times do not decrease, so that the
+// sort of the play list is the identity — the sort itself is C12.1) and out ports that record what they are sent.
+// Expected on every outcome, in this order: for each playable event whose track has a port (its own, else the default
+// -1): Sleep(1000*absTime - 1000*absTime of the previous sent event), then exactly one Send of the event's bytes on
+// that port; nothing for meta events and for tracks without a port. Independent of how collecting, sorting and sending
+// are split into closures and helpers.
+func multiPlaySimulation(c *Ctx, multi, do *ssa.Function) {
 	p := c.P
-	teT := cb.Signature.Params().At(0).Type()
+	trT := p.namedType("smf", "TracksReader")
+	teT := p.namedType("smf", "TrackEvent")
 	outI := p.namedType("drivers", "Out")
+	if trT == nil || teT == nil || outI == nil || len(multi.Params) < 2 {
+		c.Unk("C12.2", "MultiPlay simulation anchors", "-", "not resolved")
+		return
+	}
+	mt, _ := multi.Params[1].Type().Underlying().(*types.Map)
+	if mt == nil {
+		c.Unk("C12.2", "MultiPlay simulation: port map parameter", "-", "not a map")
+		return
+	}
+	type evt struct {
+		track int64
+		meta  bool
+	}
 	type cell struct {
 		name   string
 		keys   []int64
-		meta   bool
-		want   int // index into keys of the expected port, -1 = not queued
+		evs    []evt
+		want   []int // per event: index into keys of the expected port, -1 = not sent
 		rule   string
 		okText string
 	}
 	cells := []cell{
-		{"track mapped, default mapped", []int64{2, -1}, false, 0, "C12.3", "the track's own port"},
-		{"only the default (-1) mapped", []int64{-1}, false, 0, "C12.3", "the default port"},
-		{"another track mapped, no default", []int64{5}, false, -1, "C12.3", "skipped"},
-		{"meta event, track mapped", []int64{2, -1}, true, -1, "C12.2", "never queued"},
-		{"channel message, track mapped", []int64{2}, false, 0, "C12.2", "queued exactly once"},
+		{"track mapped, default mapped", []int64{2, -1}, []evt{{2, false}}, []int{0}, "C12.3", "sent once on the track's own port"},
+		{"only the default (-1) mapped", []int64{-1}, []evt{{2, false}}, []int{0}, "C12.3", "sent once on the default port"},
+		{"another track mapped, no default", []int64{5}, []evt{{2, false}}, []int{-1}, "C12.3", "skipped"},
+		{"meta event, track mapped", []int64{2, -1}, []evt{{2, true}}, []int{-1}, "C12.2", "never sent"},
+		{"channel message, track mapped", []int64{2}, []evt{{2, false}}, []int{0}, "C12.2", "sent exactly once"},
+		{"two tracks, two ports", []int64{2, 0}, []evt{{2, false}, {0, false}}, []int{0, 1}, "C12.4", "each sent once on its port, in time order, each after sleeping up to its own time"},
+		{"channel, meta, channel on the default port", []int64{-1}, []evt{{2, false}, {2, true}, {0, false}}, []int{0, -1, 0}, "C12.2", "the two channel messages sent once each, the meta event skipped, sleeps measured between the sent events"},
 	}
 	for _, cl := range cells {
 		ex := NewExec(p)
@@ -363,124 +257,157 @@ func collectionSimulation(c *Ctx, cb *ssa.Function) {
 			ports = append(ports, &IfaceV{Dyn: types.NewPointer(outI), V: &PtrV{Obj: id}})
 		}
 		k8 := func(v int64) Val { return mkConst(v, 8, false) }
-		var msg *SliceV
-		if cl.meta {
-			msg = ex.mkBytes(st, "m", []Val{k8(0xFF), k8(0x51), k8(3), ex.byteSym("t0"), ex.byteSym("t1"), ex.byteSym("t2")}, false, 0)
-		} else {
-			msg = ex.mkBytes(st, "m", []Val{k8(0x92), dataTok(ex, st, "k"), dataTok(ex, st, "v")}, false, 0)
-		}
-		te := ex.zeroOf(teT).(*StructV)
-		when := mkSym(ex.syms.Get("when", 64, true))
-		te.Fields[fieldIndex(te.T, "TrackNo")] = mkConst(2, 64, true)
-		te.Fields[fieldIndex(te.T, "AbsMicroSeconds")] = when
-		if evs, ok := te.Fields[fieldIndex(te.T, "Event")].(*StructV); ok {
-			evs.Fields[fieldIndex(evs.T, "Message")] = msg
-		}
-		// captured variables by type: the port map, the play list (pointer to a slice of records), the rest unknown
-		var binds []Val
-		var listCell *PtrV
-		okB := true
-		for _, fv := range cb.FreeVars {
-			et := fv.Type()
-			isPtr := false
-			if pt, ok := et.(*types.Pointer); ok {
-				et, isPtr = pt.Elem(), true
-			}
-			var v Val
-			switch u := et.Underlying().(type) {
-			case *types.Map:
-				v = &MapV{Const: true, Keys: cl.keys, Vals: ports, ElemT: u.Elem()}
-			case *types.Slice:
-				if _, isS := u.Elem().Underlying().(*types.Struct); isS {
-					v = &SliceV{Nil: true, Off: mkConst(0, 64, true), Len: mkConst(0, 64, true), Cap: mkConst(0, 64, true)}
-				} else {
-					v = ex.topArg(st, et, fv.Name())
-				}
-			default:
-				v = ex.topArg(st, et, fv.Name())
-			}
-			if isPtr {
-				id := ex.newObj(st, v, et)
-				pv := &PtrV{Obj: id}
-				if _, isSl := v.(*SliceV); isSl {
-					listCell = pv
-				}
-				binds = append(binds, pv)
+		var tes []Val
+		var msgs []*SliceV
+		var whens []*IntV
+		for i, e := range cl.evs {
+			var msg *SliceV
+			if e.meta {
+				msg = ex.mkBytes(st, fmt.Sprintf("m%d", i), []Val{k8(0xFF), k8(0x51), k8(3), ex.byteSym("t0"), ex.byteSym("t1"), ex.byteSym("t2")}, false, 0)
 			} else {
-				binds = append(binds, v)
+				msg = ex.mkBytes(st, fmt.Sprintf("m%d", i), []Val{k8(0x92), dataTok(ex, st, fmt.Sprintf("k%d", i)), dataTok(ex, st, fmt.Sprintf("v%d", i))}, false, 0)
+			}
+			when := mkSym(ex.syms.Get(fmt.Sprintf("when%d", i), 64, true))
+			st.refineSym(when.T.Syms[0], 0, 1<<40)
+			if i > 0 {
+				st.Assume("<=", whens[i-1], when)
+			}
+			te := ex.zeroOf(teT).(*StructV)
+			te.Fields[fieldIndex(te.T, "TrackNo")] = mkConst(e.track, 64, true)
+			te.Fields[fieldIndex(te.T, "AbsMicroSeconds")] = when
+			if evs, ok := te.Fields[fieldIndex(te.T, "Event")].(*StructV); ok {
+				evs.Fields[fieldIndex(evs.T, "Message")] = msg
+			}
+			tes = append(tes, te)
+			msgs = append(msgs, msg)
+			whens = append(whens, when)
+		}
+		ex.CallHook = func(ex *Exec, st *State, fr *Frame, call ssa.CallInstruction, callee *ssa.Function, args []Val) ([]callRes, bool) {
+			switch callee.String() {
+			case "sort.Sort", "sort.Stable", "sort.Slice", "sort.SliceStable":
+				return []callRes{{st: st}}, true // the list is fed in time order: sorting is the identity (C12.1 decides the sort)
+			}
+			if callee != do || len(args) < 2 {
+				return nil, false
+			}
+			states := []*State{st}
+			for _, te := range tes {
+				var next []*State
+				for _, s := range states {
+					for _, r := range ex.callValue(fr, s, args[1], []Val{te}, call, nil) {
+						if r.panic {
+							return []callRes{r}, true
+						}
+						next = append(next, r.st)
+					}
+				}
+				states = next
+			}
+			var out []callRes
+			for _, s := range states {
+				out = append(out, callRes{st: s, ret: args[0]})
+			}
+			return out, true
+		}
+		tp := ex.newZeroObject(st, trT)
+		if sv, ok := st.heap[tp.Obj].(*StructV); ok {
+			for i := 0; i < sv.T.NumFields(); i++ {
+				if pt, ok := sv.T.Field(i).Type().(*types.Pointer); ok {
+					if _, isS := pt.Elem().Underlying().(*types.Struct); isS {
+						sv.Fields[i] = ex.newZeroObject(st, pt.Elem())
+					}
+				}
 			}
 		}
-		if listCell == nil {
-			okB = false
-		}
-		key := "collection callback: " + cl.name
-		if !okB {
-			c.Unk(cl.rule, key, p.Pos(cb.Pos()), "the callback does not capture a play list (pointer to a slice of records)")
+		outs := ex.Call(st, multi, []Val{tp, &MapV{Const: true, Keys: cl.keys, Vals: ports, ElemT: mt.Elem()}}, nil)
+		key := "MultiPlay simulation: " + cl.name
+		if ex.Budget || len(outs) == 0 {
+			c.Unk(cl.rule, key, p.Pos(multi.Pos()), "abstract interpretation did not complete")
 			continue
 		}
-		fr := &Frame{fn: cb, regs: map[ssa.Value]Val{}, visits: map[*ssa.BasicBlock]int{}, widened: map[*ssa.BasicBlock]bool{}, phiHist: map[*ssa.Phi]Val{}, kept: map[*ssa.Phi]keptInv{}}
-		res := ex.callValue(fr, st, &FuncV{Fn: cb, Bindings: binds}, []Val{te}, nil, nil)
-		ok, why := len(res) > 0, ""
-		for _, r := range res {
-			if r.panic {
-				ok, why = false, "panic: "+r.msg
+		bad := false
+		for u := range ex.Unsupported {
+			c.Unk(cl.rule, key+": "+u, p.Pos(multi.Pos()), "unmodelled construct")
+			bad = true
+			break
+		}
+		if bad {
+			continue
+		}
+		ok, why := true, ""
+		for _, o := range outs {
+			if o.Panic || len(problemEvents(o.St.Events)) > 0 {
+				ok, why = false, "MultiPlay may panic: "+o.Msg+fmtEvents(problemEvents(o.St.Events))
 				continue
 			}
-			if pe := problemEvents(r.st.Events); len(pe) > 0 {
-				ok, why = false, fmtEvents(pe)
-				continue
+			type act struct {
+				sleep *IntV
+				recv  Val
+				data  *SliceV
 			}
-			lst, _ := r.st.heap[listCell.Obj].(*SliceV)
-			recs, okR := ex.sliceElems(r.st, lst)
-			if !okR {
-				ok, why = false, "play list not tracked"
-				continue
-			}
-			wantN := 1
-			if cl.want < 0 {
-				wantN = 0
-			}
-			if len(recs) != wantN {
-				ok, why = false, fmt.Sprintf("%d record(s) queued, expected %d", len(recs), wantN)
-				continue
-			}
-			if wantN == 0 {
-				continue
-			}
-			rec, _ := recs[0].(*StructV)
-			if rec == nil {
-				ok, why = false, "queued record not tracked"
-				continue
-			}
-			var gotOut *IfaceV
-			var gotData *SliceV
-			var gotTime *IntV
-			if i := fieldIndex(rec.T, "out"); i >= 0 {
-				gotOut, _ = rec.Fields[i].(*IfaceV)
-			}
-			if i := fieldIndex(rec.T, "data"); i >= 0 {
-				gotData, _ = rec.Fields[i].(*SliceV)
-			}
-			if i := fieldIndex(rec.T, "absTime"); i >= 0 {
-				gotTime, _ = rec.Fields[i].(*IntV)
-			}
-			wp := ports[cl.want].(*IfaceV).V.(*PtrV)
-			if gp, _ := func() (*PtrV, bool) {
-				if gotOut == nil || gotOut.Unk || gotOut.Nil {
-					return nil, false
+			var acts []act
+			var pendingSleep *IntV
+			nSleepPending := 0
+			for _, e := range o.St.Events {
+				switch e.Kind {
+				case "call:time.Sleep":
+					if len(e.Args) == 1 {
+						pendingSleep, _ = e.Args[0].(*IntV)
+					}
+					nSleepPending++
+				case "call:invoke Send":
+					var d *SliceV
+					if len(e.Args) == 1 {
+						d, _ = e.Args[0].(*SliceV)
+					}
+					a := act{recv: e.Recv, data: d}
+					if nSleepPending == 1 {
+						a.sleep = pendingSleep
+					}
+					acts = append(acts, a)
+					pendingSleep, nSleepPending = nil, 0
 				}
-				pv, ok := gotOut.V.(*PtrV)
-				return pv, ok
-			}(); gp == nil || gp.Obj != wp.Obj {
-				ok, why = false, "the event is queued for a port other than "+cl.okText
 			}
-			if gotData == nil || gotData.Obj != msg.Obj {
-				ok, why = false, "the queued bytes are not the event's message"
+			var wantIdx []int
+			for i, w := range cl.want {
+				if w >= 0 {
+					wantIdx = append(wantIdx, i)
+				}
 			}
-			if gotTime == nil || !r.st.sameInt(gotTime, when) {
-				ok, why = false, "the queued time is not the event's absolute time"
+			if len(acts) != len(wantIdx) {
+				ok, why = false, fmt.Sprintf("%d message(s) sent, expected %d", len(acts), len(wantIdx))
+				continue
+			}
+			last := mkConst(0, 64, true)
+			for ai, a := range acts {
+				ei := wantIdx[ai]
+				wp := ports[cl.want[ei]].(*IfaceV).V.(*PtrV)
+				rv, _ := a.recv.(*IfaceV)
+				var gp *PtrV
+				if rv != nil && !rv.Unk && !rv.Nil {
+					gp, _ = rv.V.(*PtrV)
+				}
+				if gp == nil || gp.Obj != wp.Obj {
+					ok, why = false, fmt.Sprintf("message %d (track %d) is sent on a port other than expected (%s)", ai, cl.evs[ei].track, cl.okText)
+					break
+				}
+				if a.data == nil || a.data.Obj != msgs[ei].Obj || !o.St.sameInt(a.data.Len, msgs[ei].Len) {
+					ok, why = false, fmt.Sprintf("message %d: the bytes sent are not the event's message", ai)
+					break
+				}
+				sched := o.St.Arith(token.MUL, whens[ei], mkConst(1000, 64, true), "")
+				wantSleep := o.St.Arith(token.SUB, sched, last, "")
+				if a.sleep == nil {
+					ok, why = false, fmt.Sprintf("message %d is not preceded by exactly one Sleep since the previous Send: it can leave before its scheduled time", ai)
+					break
+				}
+				if !o.St.sameInt(a.sleep, wantSleep) {
+					ok, why = false, fmt.Sprintf("message %d: Sleep(%s) instead of Sleep(1000*absTime - time of the previous sent event) = %s", ai, valString(a.sleep), wantSleep)
+					break
+				}
+				last = sched
 			}
 		}
-		c.Check(ok, cl.rule, key, p.Pos(cb.Pos()), cl.okText, why)
+		c.Check(ok, cl.rule, key, p.Pos(multi.Pos()), cl.okText, why)
 	}
 }
